@@ -162,7 +162,7 @@ impl Family for Determinism {
         300
     }
     fn rule(&self) -> &'static str {
-        "projects = 8 corpus projects + 6 generated + 4 ill-typed variants + 2 projects with several diagnostics / several impls + 74 single-file corpus programs + one project per import DAG on 5 packages in which Main reaches every package (10 possible edges; <= 4 edges, plus the 5-edge ones in one naming, in quick; all in thorough) x 2 directory namings (alphabetical order agreeing with / opposing the topological order) x {well-typed, every leaf ill-typed, every leaf declaring a wrong package name}; for each: hash seeds 0..15 (quick) / 0..127 (thorough) (DAG projects: 0..7 / 0..31) x 2 file creation orders x {whole-program compile, separate build+link through files} in this process, plus a second process for seeds 0 and 1; observables: Go text, Core/Mono/Lift/ANF dumps, ordered diagnostics, .interface/.core JSON (incl. interface hashes); oracle: byte-identical to the seed-0 baseline. Non-vacuity: the number of distinct package discovery orders produced by the seeds is measured per project. non-trivial = projects for which the seeds produced more than one iteration order of a seeded set of its package names (measured); distinct = distinct (project, seed, order)"
+        "projects = 8 corpus projects + 6 generated + 4 ill-typed variants + 2 projects with several diagnostics / several impls + 74 single-file corpus programs + one project per import DAG on 5 packages in which Main reaches every package (10 possible edges; <= 4 edges, plus the 5-edge ones in one naming, in quick; all in thorough) x 2 directory namings (alphabetical order agreeing with / opposing the topological order) x {well-typed, every leaf ill-typed, every leaf declaring a wrong package name}; for each: hash seeds 0..15 (quick) / 0..127 (thorough) (DAG projects: 0..7 / 0..31) x 2 file creation orders x {whole-program compile, separate build+link through files} in this process, plus a second process for seeds 0 and 1, plus 4 spellings of the entry path (bare file name and ./ from inside the project directory, dir/main.gom from its parent, ../dir/main.gom); observables: Go text, Core/Mono/Lift/ANF dumps, ordered diagnostics, .interface/.core JSON (incl. interface hashes); oracle: byte-identical to the seed-0 baseline. Non-vacuity: the number of distinct package discovery orders produced by the seeds is measured per project. non-trivial = projects for which the seeds produced more than one iteration order of a seeded set of its package names (measured); distinct = distinct (project, seed, order)"
     }
     fn cases(&self, tier: Tier) -> Box<dyn Iterator<Item = Value> + '_> {
         let nf = n_fixed();
@@ -238,6 +238,50 @@ impl Family for Determinism {
             }
         }
         set_seed(0);
+        // the entry path spelled differently (as a user would type it from inside the project
+        // directory, or from its parent): same sources, so same Go / same diagnostics
+        materialize(&root, proj, &fwd);
+        let base_whole: Vec<(String, String)> = base.iter().filter(|(k, _)| k.starts_with("whole.")).cloned().collect();
+        let cwd_before = std::env::current_dir().ok();
+        let dir_name = root.file_name().map(|n| n.to_string_lossy().to_string()).unwrap_or_default();
+        for (spelling, cwd, rel) in [
+            ("bare", root.clone(), "main.gom".to_string()),
+            ("dot-slash", root.clone(), "./main.gom".to_string()),
+            ("from-parent", root.parent().unwrap().to_path_buf(), format!("{}/main.gom", dir_name)),
+            ("dot-dot", root.clone(), format!("../{}/main.gom", dir_name)),
+        ] {
+            if std::env::set_current_dir(&cwd).is_err() {
+                rep.tag("machinery:chdir-failed");
+                continue;
+            }
+            evals += 1;
+            let (w, dumps) = whole_at(std::path::Path::new(&rel));
+            let mut obs: Vec<(String, String)> = Vec::new();
+            match w {
+                Built::Ok { go } => obs.push(("whole.go".to_string(), go)),
+                Built::Err { stage, messages } => obs.push(("whole.diagnostics".to_string(), format!("{}:{}", stage, messages.join("\n")))),
+                Built::Panic(m) => obs.push(("whole.panic".to_string(), m)),
+            }
+            obs.extend(dumps.into_iter().map(|(k, v)| (format!("whole.{}", k), v)));
+            // diagnostics quote the path as given: compare with every spelling of the root normalised away
+            let strip = |s: &str| s.replace(&format!("../{}/", dir_name), "").replace(&format!("{}/", dir_name), "").replace("./", "").replace("<ROOT>/proj/", "").replace("<ROOT>/", "");
+            let same = obs.len() == base_whole.len() && obs.iter().zip(base_whole.iter()).all(|((k1, v1), (k2, v2))| k1 == k2 && strip(&norm(vec![(k1.clone(), v1.clone())], &root)[0].1) == strip(v2));
+            if same {
+                rep.tag(format!("path-spelling:{}:agrees", spelling));
+            } else {
+                let what = obs.first().map(|(k, _)| k.clone()).unwrap_or_default();
+                rep.findings.push(Finding {
+                    property: "C13",
+                    class: "nondeterministic.path-spelling".into(),
+                    site: format!("project={};spelling={}", if proj.name.starts_with("dag5") || proj.name.starts_with("pipeline/") { proj.name.split(';').next().unwrap_or("").split('/').next().unwrap_or("").to_string() } else { proj.name.clone() }, spelling),
+                    detail: format!("entry path {:?} (cwd = {}) gives a different {} than the absolute path: {}", rel, if cwd == root { "project directory" } else { "its parent" }, what, first_diff(&base_whole.first().map(|x| x.1.clone()).unwrap_or_default(), &obs.first().map(|x| x.1.clone()).unwrap_or_default())),
+                    replay: json!({"kind": "determinism", "project": proj.name, "files": proj.files, "entry_path": rel, "cwd": if cwd == root { "project" } else { "parent" }}),
+                });
+            }
+        }
+        if let Some(c) = cwd_before {
+            let _ = std::env::set_current_dir(c);
+        }
         // a second process
         materialize(&root, proj, &fwd);
         let exe = std::env::current_exe().unwrap();
